@@ -1153,6 +1153,62 @@ func (r *timeRunner) Exec(line string) string {
 		}
 		r.tag("sweep")
 		return "ok"
+	case "sweeprace":
+		// schedules (C18 quantifies over them): an EXPIRED but not yet swept entry is refreshed by an Upsert while a Sweep is
+		// running. Whichever of the two is served first, the key is present afterwards with the new span: refreshed first, the
+		// sweep finds it young; swept first, the upsert adds it again. `nfill` expired filler entries give the sweep something
+		// to walk over, the upsert is released at several offsets into that walk. For the model the whole step is ONE upsert
+		// of a key it has never seen (the line is rewritten); the history goes on with a plain sweep.
+		k := string(unhx(t[1]))
+		nfill, _ := strconv.Atoi(t[2])
+		trials, _ := strconv.Atoi(t[3])
+		span := time.Hour
+		lo := r.now()
+		fill := func() {
+			for i := 0; i < nfill; i++ {
+				_ = r.c.addSpan(fmt.Sprintf("\xfe\xfffill-%d", i), time.Nanosecond)
+			}
+		}
+		fill()
+		time.Sleep(20 * time.Microsecond)
+		t0 := time.Now()
+		r.c.sweep()
+		walk := time.Since(t0)
+		out := "ok"
+		for tr := 0; tr < trials && out == "ok"; tr++ {
+			_ = r.c.addSpan(k, time.Nanosecond)
+			fill()
+			time.Sleep(20 * time.Microsecond)
+			delay := walk * time.Duration(tr) / time.Duration(trials)
+			start := make(chan struct{})
+			var wg sync.WaitGroup
+			wg.Add(2)
+			go func() { defer wg.Done(); <-start; r.c.sweep() }()
+			go func() {
+				defer wg.Done()
+				<-start
+				for t1 := time.Now(); time.Since(t1) < delay; {
+					runtime.Gosched()
+				}
+				_ = r.c.upsert(k, span)
+			}()
+			close(start)
+			wg.Wait()
+			if !r.c.has(k) {
+				out = "lost"
+				r.add("C18", "dropped-before-span", fmt.Sprintf("key %s was upserted with span %v while a sweep was running (it had expired before) and is absent afterwards (trial %d, upsert released %v into a sweep of about %v)", hx([]byte(k)), span, tr, delay, walk))
+			}
+		}
+		hi := r.now()
+		r.last = fmt.Sprintf("upsert %s %d - %d %d", t[1], int64(span), lo, hi)
+		for _, e := range r.ent {
+			if hi-e.lo > e.spanMin {
+				e.certain = false
+			}
+		}
+		r.ent[k] = &tcEnt{lo: lo, hi: hi, spanMin: int64(span), certain: out == "ok", possibly: true}
+		r.tag("sweep-vs-upsert")
+		return out
 	case "rm":
 		k := string(unhx(t[1]))
 		r.c.rm(k)
@@ -1227,6 +1283,17 @@ func (timeComp) Gen(rng *rand.Rand, tier string) [][]string {
 			h = append(h, "add 0b - -", fmt.Sprintf("addspan 0a %d -", short)) // default span (60ms); the long-lived key is re-added with a short span
 		}
 		h = append(h, "has 0b", "sleep "+fmt.Sprint(250*ms), "sweep", "has 0b", "has 0a", "sleep "+fmt.Sprint(100*ms), "sweep", "has 0b", "has 0a")
+		hs = append(hs, h)
+	}
+	// schedules: an upsert of an expired, unswept key racing a sweep over a large cache
+	nRace := 2
+	if tier == "thorough" {
+		nRace = 12
+	}
+	for d := 0; d < nRace; d++ {
+		kind := pick(rng, "tc", "peer")
+		h := []string{fmt.Sprintf("begin timecache kind=%s span=%d", kind, 60*ms)}
+		h = append(h, fmt.Sprintf("upsert 0a %d -", 5000*ms), fmt.Sprintf("sweeprace 0e %d 8", pick(rng, 5000, 20000, 50000)), "has 0e", "sweep", "has 0e", "has 0a")
 		hs = append(hs, h)
 	}
 	for i := 0; i < nh; i++ {
